@@ -756,18 +756,26 @@ class Interp:
     def rebind(self, old, new, st):
         """in-place mutation: every binding holding ``old`` now holds ``new``; other
         views of the same storage become unknown-valued"""
+        # writing through a basic view v = b[idx] (out=v, v += ...) updates exactly that region of b
+        view_of = old.term.args[0] if (isinstance(old.term, Term) and old.term.op == "getitem" and len(old.term.args) == 2) else None
+
+        def other(x):
+            if view_of is not None and x.term == view_of:
+                return x.replace(term=T("store", x.term, old.term.args[1], new.term), has_const=False, const_=None, items=None)
+            return x.replace(term=T("stale", x.term, new.term))
+
         for env in st.frames:
             for k, x in env.items():
                 if x is old:
                     env[k] = new
                 elif old.loc is not None and x.loc == old.loc and x is not new and x.kind == "arr":
-                    env[k] = x.replace(term=T("stale", x.term, new.term))
+                    env[k] = other(x)
         for attrs in st.heap.values():
             for k, x in attrs.items():
                 if x is old:
                     attrs[k] = new
                 elif old.loc is not None and x.loc == old.loc and x is not new and x.kind == "arr":
-                    attrs[k] = x.replace(term=T("stale", x.term, new.term))
+                    attrs[k] = other(x)
 
     def x_AugAssign(self, s, st):
         cur = self.eval(s.target, st)
